@@ -293,6 +293,7 @@ def junk_names(kw) -> List[Any]:
     """Names for rows that are not states — including the ids the library's own fresh-state
     counters would pick next (collision with `_add_new_state`)."""
     ints = [q for q in kw["states"] if isinstance(q, int) and not isinstance(q, bool)]
+    # (None is not among them: a row keyed by None is refused since fix f47420f — it is a corruption)
     cands = [FOREIGN_STATE, 7, "junk", len(kw["states"]), (max(ints) + 1) if ints else 0, 0, 1, -1]
     return [c for c in cands if c not in kw["states"]]
 
@@ -345,6 +346,12 @@ def accepted_by_docs(cls: str, kw: Dict[str, Any]) -> bool:
                 return False
         return True
     if not set(kw["final_states"]) <= set(st):
+        return False
+    # reserved names (fa.py `_validate_reserved_names`, pda.py `validate`): None marks "no state",
+    # the empty string marks a lambda transition / an empty stack
+    if cls in ("DFA", "NFA") and (None in st or None in T or "" in kw["input_symbols"]):
+        return False
+    if cls in ("DPDA", "NPDA") and "" in kw["stack_symbols"]:
         return False
     if cls == "DFA":
         if not set(st) <= set(T):
@@ -446,13 +453,47 @@ def corruptions(cls: str, kw: Dict[str, Any]) -> Iterator[Tuple[str, str, Callab
 
     # --- shared: initial / final states
     yield ("initial_state_not_a_state", "InvalidStateError", mk(lambda k: k.__setitem__("initial_state", FOREIGN_STATE)))
+    # the library's own "no state" marker as the foreign name (None is not a state of a valid definition)
+    yield ("initial_state_not_a_state", "InvalidStateError", mk(lambda k: k.__setitem__("initial_state", None)))
     if cls == "GNFA":
         yield ("final_state_not_a_state", "InvalidStateError", mk(lambda k: k.__setitem__("final_state", FOREIGN_STATE)))
+        yield ("final_state_not_a_state", "InvalidStateError", mk(lambda k: k.__setitem__("final_state", None)))
     else:
         yield ("final_state_not_a_state", "InvalidStateError",
                mk(lambda k: k.__setitem__("final_states", set(k["final_states"]) | {FOREIGN_STATE})))
         yield ("final_state_not_a_state", "InvalidStateError",
+               mk(lambda k: k.__setitem__("final_states", set(k["final_states"]) | {None})))
+        yield ("final_state_not_a_state", "InvalidStateError",
                mk(lambda k: k.__setitem__("final_states", {FOREIGN_STATE2})))
+
+    # --- reserved names (checked before everything else): the bare edit (which also leaves the
+    # new state without a row / the rows of a complete DFA without the new symbol — those checks
+    # come later), and the edit that keeps the definition consistent in every other respect
+    # (a state / symbol *renamed* to the reserved name everywhere)
+    if cls in ("DFA", "NFA"):
+        yield ("reserved_state_name_none", "InvalidStateError",
+               mk(lambda k: k.__setitem__("states", set(k["states"]) | {None})))
+        for q in st:
+            yield ("reserved_state_name_none", "InvalidStateError",
+                   mk(lambda k, q=q: rename_state(cls, k, q, None)))
+        # a row keyed by None (rows keyed by other names that are not states are accepted): a copy of
+        # an existing row — obeys every rule for rows — or an empty one, at the end / the front of the table
+        for q in list(T)[:2]:
+            yield ("reserved_state_name_none", "InvalidStateError",
+                   mk(lambda k, q=q: k["transitions"].__setitem__(None, _dc(k["transitions"][q]))))
+        yield ("reserved_state_name_none", "InvalidStateError",
+               mk(lambda k: k.__setitem__("transitions", {None: {}, **k["transitions"]})))
+        yield ("reserved_input_symbol_empty", "InvalidSymbolError",
+               mk(lambda k: k.__setitem__("input_symbols", set(k["input_symbols"]) | {""})))
+        for a in sorted(kw["input_symbols"]):
+            yield ("reserved_input_symbol_empty", "InvalidSymbolError",
+                   mk(lambda k, a=a: rename_symbol(cls, k, a, "")))
+    if cls in ("DPDA", "NPDA"):
+        yield ("reserved_stack_symbol_empty", "InvalidSymbolError",
+               mk(lambda k: k.__setitem__("stack_symbols", set(k["stack_symbols"]) | {""})))
+        for g in sorted(kw["stack_symbols"]):
+            yield ("reserved_stack_symbol_empty", "InvalidSymbolError",
+                   mk(lambda k, g=g: rename_stack_symbol(cls, k, g, "")))
 
     if cls == "DFA":
         for q in st:
@@ -464,8 +505,13 @@ def corruptions(cls: str, kw: Dict[str, Any]) -> Iterator[Tuple[str, str, Callab
                            mk(lambda k, q=q, a=a: k["transitions"][q].pop(a)))
                 yield ("unknown_end_state", "InvalidStateError",
                        mk(lambda k, q=q, a=a: k["transitions"][q].__setitem__(a, FOREIGN_STATE)))
+                # a transition *into None* (the library's "no state" marker; not a state)
+                yield ("unknown_end_state", "InvalidStateError",
+                       mk(lambda k, q=q, a=a: k["transitions"][q].__setitem__(a, None)))
             yield ("unknown_transition_symbol", "InvalidSymbolError",
                    mk(lambda k, q=q: k["transitions"][q].__setitem__(fs, st[0])))
+            yield ("unknown_transition_symbol", "InvalidSymbolError",
+                   mk(lambda k, q=q: k["transitions"][q].__setitem__(None, st[0])))  # a transition *on None*
     elif cls == "NFA":
         if len(st) > 1 and kw["initial_state"] in T:
             yield ("initial_state_without_transitions", "MissingStateError",
@@ -473,9 +519,13 @@ def corruptions(cls: str, kw: Dict[str, Any]) -> Iterator[Tuple[str, str, Callab
         for q, row in T.items():
             yield ("unknown_transition_symbol", "InvalidSymbolError",
                    mk(lambda k, q=q: k["transitions"][q].__setitem__(fs, {st[0]})))
+            yield ("unknown_transition_symbol", "InvalidSymbolError",
+                   mk(lambda k, q=q: k["transitions"][q].__setitem__(None, {st[0]})))  # a transition *on None*
             for a in row:
                 yield ("unknown_end_state", "InvalidStateError",
                        mk(lambda k, q=q, a=a: k["transitions"][q].__setitem__(a, set(k["transitions"][q][a]) | {FOREIGN_STATE})))
+                yield ("unknown_end_state", "InvalidStateError",
+                       mk(lambda k, q=q, a=a: k["transitions"][q].__setitem__(a, set(k["transitions"][q][a]) | {None})))
     elif cls == "GNFA":
         init, fin = kw["initial_state"], kw["final_state"]
         if len(st) > 1:
@@ -510,6 +560,8 @@ def corruptions(cls: str, kw: Dict[str, Any]) -> Iterator[Tuple[str, str, Callab
     elif cls in ("DPDA", "NPDA"):
         yield ("invalid_initial_stack_symbol", "InvalidSymbolError",
                mk(lambda k: k.__setitem__("initial_stack_symbol", fs)))
+        yield ("invalid_initial_stack_symbol", "InvalidSymbolError",
+               mk(lambda k: k.__setitem__("initial_stack_symbol", "")))
         for bad in ("foo", "", "final", "BOTH", None, 0):
             yield ("invalid_acceptance_mode", "InvalidAcceptanceModeError",
                    mk(lambda k, bad=bad: k.__setitem__("acceptance_mode", bad)))
@@ -524,6 +576,10 @@ def corruptions(cls: str, kw: Dict[str, Any]) -> Iterator[Tuple[str, str, Callab
             for a, m in row.items():
                 yield ("invalid_stack_symbol", "InvalidSymbolError",
                        mk(lambda k, q=q, a=a: k["transitions"][q][a].__setitem__(fs, val)))
+                # the empty string is the lambda marker for *input* symbols only: as a stack-symbol
+                # key it is just a symbol that is not in the stack alphabet
+                yield ("invalid_stack_symbol", "InvalidSymbolError",
+                       mk(lambda k, q=q, a=a: k["transitions"][q][a].__setitem__("", val)))
                 if cls == "DPDA":
                     for g in m:
                         if a != "" and g not in row.get("", {}):
@@ -544,6 +600,7 @@ def corruptions(cls: str, kw: Dict[str, Any]) -> Iterator[Tuple[str, str, Callab
         yield ("input_symbols_not_proper_subset", "MissingSymbolError",
                mk(lambda k: k.__setitem__("input_symbols", set(k["tape_symbols"]))))
         yield ("bad_blank_symbol", "InvalidSymbolError", mk(lambda k: k.__setitem__("blank_symbol", fs)))
+        yield ("bad_blank_symbol", "InvalidSymbolError", mk(lambda k: k.__setitem__("blank_symbol", "")))
         yield ("initial_state_is_final", "InitialStateError",
                mk(lambda k: k.__setitem__("final_states", set(k["final_states"]) | {k["initial_state"]})))
         if len(st) > 1:
@@ -578,6 +635,8 @@ def corruptions(cls: str, kw: Dict[str, Any]) -> Iterator[Tuple[str, str, Callab
                        mk(lambda k, q=q, s=s: k["transitions"][q].__setitem__(key(s), result(t=FOREIGN_STATE))))
                 yield ("bad_tape_symbol", "InvalidSymbolError",
                        mk(lambda k, q=q, s=s: k["transitions"][q].__setitem__(key(s), result(w=fs))))
+                yield ("bad_tape_symbol", "InvalidSymbolError",
+                       mk(lambda k, q=q, s=s: k["transitions"][q].__setitem__(key(s), result(w=""))))
                 for bad in ("X", "", "l", "LR", None):
                     yield ("bad_direction", "InvalidDirectionError",
                            mk(lambda k, q=q, s=s, bad=bad: k["transitions"][q].__setitem__(key(s), result(d=bad))))
@@ -597,6 +656,57 @@ def corruptions(cls: str, kw: Dict[str, Any]) -> Iterator[Tuple[str, str, Callab
                 if n_t + delta >= 0:
                     yield ("bad_tape_count", "InconsistentTapesException",
                            mk(lambda k, delta=delta: k.__setitem__("n_tapes", k["n_tapes"] + delta)))
+
+
+def rename_state(cls, k, old, new):
+    """DFA / NFA: the state `old` is called `new` everywhere."""
+    r = lambda q: new if q == old else q  # noqa: E731
+    k["states"] = {r(q) for q in k["states"]}
+    k["initial_state"] = r(k["initial_state"])
+    k["final_states"] = {r(q) for q in k["final_states"]}
+    if cls == "DFA":
+        k["transitions"] = {r(q): {a: r(t) for a, t in row.items()} for q, row in k["transitions"].items()}
+    else:
+        k["transitions"] = {r(q): {a: {r(t) for t in ts} for a, ts in row.items()}
+                            for q, row in k["transitions"].items()}
+
+
+def rename_symbol(cls, k, old, new):
+    """DFA / NFA: the input symbol `old` is written `new` everywhere."""
+    r = lambda a: new if a == old else a  # noqa: E731
+    k["input_symbols"] = {r(a) for a in k["input_symbols"]}
+    out = {}
+    for q, row in k["transitions"].items():
+        nr = {}
+        for a, v in row.items():
+            if cls == "NFA" and r(a) in nr:
+                nr[r(a)] = set(nr[r(a)]) | set(v)  # the renamed symbol meets the lambda entry
+            else:
+                nr[r(a)] = v
+        out[q] = nr
+    k["transitions"] = out
+
+
+def rename_stack_symbol(cls, k, old, new):
+    """DPDA / NPDA: the stack symbol `old` is written `new` everywhere (stack alphabet, initial
+    stack symbol, the stack-symbol keys of the table, pushed strings / tuples)."""
+    r = lambda g: new if g == old else g  # noqa: E731
+
+    def rp(p):
+        return "".join(r(c) for c in p) if isinstance(p, str) else tuple(r(c) for c in p)
+
+    k["stack_symbols"] = {r(g) for g in k["stack_symbols"]}
+    k["initial_stack_symbol"] = r(k["initial_stack_symbol"])
+    out = {}
+    for q, row in k["transitions"].items():
+        nr = {}
+        for a, m in row.items():
+            if cls == "DPDA":
+                nr[a] = {r(g): (t, rp(p)) for g, (t, p) in m.items()}
+            else:
+                nr[a] = {r(g): {(t, rp(p)) for (t, p) in res} for g, res in m.items()}
+        out[q] = nr
+    k["transitions"] = out
 
 
 def _add_lambda(k, q, g, where):
@@ -649,6 +759,11 @@ def odd_accepted_shapes(cls: str, kw: Dict[str, Any]) -> Iterator[Tuple[str, Dic
             k["transitions"][q].setdefault(sorted(kw["input_symbols"])[0], {})[g0] = res if cls == "DPDA" else {res}
             if accepted_det(cls, k):
                 yield ("pda-unknown-pushed-symbol", k)
+            k = _dc(kw)
+            res = (st[0], ("", g0))  # the empty string pushed as a stack symbol (pushes are not validated)
+            k["transitions"][q].setdefault(sorted(kw["input_symbols"])[0], {})[g0] = res if cls == "DPDA" else {res}
+            if accepted_det(cls, k):
+                yield ("pda-empty-string-pushed", k)
     if cls in ("DTM", "NTM", "MNTM"):
         k = _dc(kw)
         k["input_symbols"] = set(k["input_symbols"]) | {k["blank_symbol"]}
